@@ -36,10 +36,12 @@ def configs():
     return out
 
 
-def mk(engine, name, ad, mode, stor, k, d, conv, sched):
+def mk(engine, name, ad, mode, stor, k, d, conv, sched, cbthrow=0):
     ops = [[1, ad, mode, stor], [2, k, d]]
     if conv is not None:
         ops.append([3, conv[0], conv[1]])
+    if cbthrow:
+        ops.append([4, 1])
     if engine == "adapt":
         ops.append([9] + list(sched))
     return Case(engine, name, ops)
@@ -72,6 +74,13 @@ def gen_ctl(seed, tier):
             convs = [(0, rng.randint(1, 50)), (1, rng.randint(1, 50))] if ad == 3 else [None]
             for cv in convs:
                 cases.append(mk("adapt", "s%d" % j, ad, mode, stor, k, rng.randint(1, 999), cv, [])); j += 1
+    # callback_await with a callback that throws after doing its work: still exactly one invocation
+    for mode in range(4):
+        for stor in (0, 1):
+            for k in (0, 1, 2):
+                for r in range(1 if mode != 2 else 3):
+                    cases.append(mk("adapt", "t%d" % j, 0, mode, stor, k, rng.randint(1, 999), None,
+                                    rand_sched(rng, 14) if mode == 2 else [], cbthrow=1)); j += 1
     n = 450 if tier == "quick" else 5000
     two = [c for c in configs() if c[1] == 2]
     for i in range(n):
@@ -109,6 +118,10 @@ def gen_seq(seed, tier):
                 convs = [(0, rng.randint(1, 50)), (1, rng.randint(1, 50))] if ad == 3 else [None]
                 for cv in convs:
                     cases.append(mk("adseq", "q%d" % j, ad, mode, stor, k, rng.randint(1, 999), cv, [])); j += 1
+    for mode in range(4):
+        for k in (0, 1, 2):
+            cases.append(mk("adseq", "qt%d" % j, 0, mode, mode % 2, k, rng.randint(1, 999), None, [], cbthrow=1)); j += 1
+    cases.append(Case("adseq", "qm2", [[1, 0, 0, 0], [2, 0, 1], [4, 2]]))
     cases.append(Case("adseq", "qm0", [[1, 1, 1, 0], [2, 0, 1]]))
     cases.append(Case("adseq", "qm1", [[1, 4, 0, 1], [2, 0, 1]]))
     return cases
@@ -139,6 +152,8 @@ def signature(case, impl_obs, model_obs):
         kind = "deadlock"
     else:
         kind = "oracle"
+        if any(o and o[0] == 4 and o[1:] == [1] for o in case.ops) and sum(1 for l in impl_obs if l.startswith("30 ")) == 2:
+            kind = "throwing-callback-invoked-twice"
     return "adapter%s:%s" % (ad, kind)
 
 
